@@ -46,7 +46,7 @@ var checkC08 = register("C08/string", func(c strCase) string {
 func acceptanceTest(t *testing.T, id string, ver int, check func(strCase) string) {
 	c := begin(t, id)
 	defer c.end()
-	c.rec.F.Rule = "neighbourhood: every single-token replacement / insertion / deletion over a vocabulary of ~680 tokens (all names, wrong-case and unknown names, empty name x all codes, X, lower case, junk, empty value, malformed forms) at every position of 6 representative vectors, at each of the three decoders; shapes: token floods (unknown / higher-level / repeated / empty / malformed tokens x 25 counts around powers of two up to 1025, thorough up to 65537, appended / prepended / in place), single tokens of boundary lengths, every character replaced by its full-width or look-alike form, invisible characters at every position, dense multi-byte text, for 2 representative vectors at every decoder; rapid: valid vectors of every level at every decoder, 0-3 classified token/character edits of valid vectors, single-defect vectors, arbitrary strings (unicode, raw bytes, vector alphabet, token soup); thorough adds every pair of token edits over a reduced 50-70 token vocabulary on 2 representative vectors (not counted as distinct: pairs can coincide) and coverage-guided native fuzzing with the same oracle. Non-trivial = a rejected input within three edits of a valid vector, or an accepted input that is not in canonical form (v3) / carries an optional group (v2); distinct by hash of (decoder, receiver kind, input)."
+	c.rec.F.Rule = "neighbourhood: every single-token replacement / insertion / deletion over a vocabulary of ~680 tokens (all names, wrong-case and unknown names, empty name x all codes, X, lower case, junk, empty value, malformed forms) at every position of 6 representative vectors, at each of the three decoders; shapes: token floods (unknown / higher-level / repeated / empty / malformed tokens x 25 counts around powers of two up to 1025, thorough up to 65537, appended / prepended / in place), single tokens of boundary lengths, every character replaced by its full-width or look-alike form, invisible characters at every position, dense multi-byte text, for 2 representative vectors at every decoder; every move of a contiguous block of two or more tokens (whole groups, halves of groups) for all 6 representatives at every decoder; rapid: valid vectors of every level at every decoder, 0-3 classified token/character edits of valid vectors, single-defect vectors, arbitrary strings (unicode, raw bytes, vector alphabet, token soup); thorough adds every pair of token edits over a reduced 50-70 token vocabulary on 2 representative vectors (not counted as distinct: pairs can coincide) and coverage-guided native fuzzing with the same oracle. Non-trivial = a rejected input within three edits of a valid vector, or an accepted input that is not in canonical form (v3) / carries an optional group (v2); distinct by hash of (decoder, receiver kind, input)."
 	c.rec.F.Assumptions = []string{"reference recogniser written from the property statement (v3: hand-written token parser; v2: three anchored regular expressions), sharing no code with the decoders"}
 
 	// ---- bounded-exhaustive neighbourhood ---------------------------------------------------
